@@ -389,14 +389,35 @@ func structModel(rv reflect.Value, cl classes) []field {
 	return fs
 }
 
-// isZero: omitzero omits a field whose value is zero, according to its IsZero
-// method if it has one (encoding/json documentation).
+// isZero: omitzero omits a field whose value is zero. As in encoding/json the
+// TYPE OF THE FIELD decides: if it has an IsZero method the method is called
+// (a nil pointer or interface is zero without calling it), otherwise the
+// value is omitted if it is the zero value of the type; the dynamic type of
+// the value of an interface field does not matter.
 func isZero(v reflect.Value) bool {
-	if z, ok := v.Interface().(interface{ IsZero() bool }); ok {
-		if v.Kind() == reflect.Pointer && v.IsNil() {
+	type isZeroer interface{ IsZero() bool }
+	zt := reflect.TypeOf((*isZeroer)(nil)).Elem()
+	t := v.Type()
+	switch {
+	case t.Kind() == reflect.Interface && t.Implements(zt):
+		if v.IsNil() || v.Elem().Kind() == reflect.Pointer && v.Elem().IsNil() {
 			return true
 		}
-		return z.IsZero()
+		return v.Interface().(isZeroer).IsZero()
+	case t.Kind() == reflect.Pointer && t.Implements(zt):
+		if v.IsNil() {
+			return true
+		}
+		return v.Interface().(isZeroer).IsZero()
+	case t.Implements(zt):
+		return v.Interface().(isZeroer).IsZero()
+	case reflect.PointerTo(t).Implements(zt):
+		if !v.CanAddr() {
+			tmp := reflect.New(t).Elem()
+			tmp.Set(v)
+			v = tmp
+		}
+		return v.Addr().Interface().(isZeroer).IsZero()
 	}
 	return v.IsZero()
 }
